@@ -46,6 +46,12 @@ type VerifHooks struct {
 	// now (it takes and releases the lock). The hook returns when the caller
 	// may go on to acquire the lock for real.
 	Lock func(db *DB, which int, exclusive bool, try func() bool)
+	// LockObj is called by the self-probing lock types (verifMutex,
+	// verifRWMutex) inside every Lock/RLock, before the real acquisition: obj
+	// identifies the lock, name is rwlock/metalock/mmaplock once the DB is
+	// open, rw tells a reader-writer lock, try as for Lock. It supersedes
+	// Lock: every acquisition is covered, also ones added to the code later.
+	LockObj func(obj any, name string, exclusive, rw bool, try func() bool)
 	// Yield is a pure scheduling point.
 	Yield func(db *DB, point string)
 	// OnceEnter/OnceExit bracket batch.start.Do: seq identifies the batch (in
@@ -65,7 +71,64 @@ var verifHooks atomic.Pointer[VerifHooks]
 // VerifInstall installs (or, with nil, removes) the process-wide hook table.
 func VerifInstall(h *VerifHooks) { verifHooks.Store(h) }
 
+// verifMutex is the type of DB.rwlock and DB.metalock under the tag.
+type verifMutex struct {
+	mu   sync.Mutex
+	name string
+}
+
+func (m *verifMutex) Lock() {
+	if h := verifHooks.Load(); h != nil && h.LockObj != nil {
+		h.LockObj(m, m.name, true, false, func() bool {
+			if m.mu.TryLock() {
+				m.mu.Unlock()
+				return true
+			}
+			return false
+		})
+	}
+	m.mu.Lock()
+}
+func (m *verifMutex) Unlock()       { m.mu.Unlock() }
+func (m *verifMutex) TryLock() bool { return m.mu.TryLock() }
+
+// verifRWMutex is the type of DB.mmaplock under the tag.
+type verifRWMutex struct {
+	mu   sync.RWMutex
+	name string
+}
+
+func (m *verifRWMutex) Lock() {
+	if h := verifHooks.Load(); h != nil && h.LockObj != nil {
+		h.LockObj(m, m.name, true, true, func() bool {
+			if m.mu.TryLock() {
+				m.mu.Unlock()
+				return true
+			}
+			return false
+		})
+	}
+	m.mu.Lock()
+}
+func (m *verifRWMutex) RLock() {
+	if h := verifHooks.Load(); h != nil && h.LockObj != nil {
+		h.LockObj(m, m.name, false, true, func() bool {
+			if m.mu.TryRLock() {
+				m.mu.RUnlock()
+				return true
+			}
+			return false
+		})
+	}
+	m.mu.RLock()
+}
+func (m *verifRWMutex) Unlock()        { m.mu.Unlock() }
+func (m *verifRWMutex) RUnlock()       { m.mu.RUnlock() }
+func (m *verifRWMutex) TryLock() bool  { return m.mu.TryLock() }
+func (m *verifRWMutex) TryRLock() bool { return m.mu.TryRLock() }
+
 func verifWrapOps(db *DB) {
+	db.rwlock.name, db.metalock.name, db.mmaplock.name = "rwlock", "metalock", "mmaplock"
 	real := db.ops.writeAt
 	db.ops.writeAt = func(b []byte, off int64) (int, error) {
 		if h := verifHooks.Load(); h != nil && h.Write != nil {
@@ -84,8 +147,8 @@ func verifIO(db *DB, op string, arg int64) error {
 
 func verifLock(db *DB, which int, exclusive bool) {
 	h := verifHooks.Load()
-	if h == nil || h.Lock == nil {
-		return
+	if h == nil || h.Lock == nil || h.LockObj != nil {
+		return // (with LockObj installed the lock types probe by themselves)
 	}
 	var try func() bool
 	switch which {
